@@ -541,7 +541,7 @@ func ruleHTMLToChild(r *core.Reporter) {
 		if okl {
 			// loop ranges over the assets slice and every iteration either adds the child or takes a reviewed skip (nil asset, reddit unescape error)
 			if c, isC := loop.Atom.Y.(*ssa.Call); isC && ir.SameValue(c.Call.Args[0], assets) {
-				body := ir.Pt{B: loop.If.Block().Succs[loop.EdgeWhen(true)], I: 0}
+				body := ir.EdgePt(loop.If.Block(), loop.EdgeWhen(true))
 				hdr := ssa.Instruction(loop.If)
 				skipEdges := func(b *ssa.BasicBlock, s int) bool {
 					if len(b.Instrs) == 0 {
@@ -616,7 +616,7 @@ func ruleHTMLToChild(r *core.Reporter) {
 			continue
 		}
 		// every iteration appends (HTMLOutlinks: except the reviewed same-as-base/current-URL discard)
-		body := ir.Pt{B: l.If.Block().Succs[l.EdgeWhen(true)], I: 0}
+		body := ir.EdgePt(l.If.Block(), l.EdgeWhen(true))
 		hdr := ssa.Instruction(l.If)
 		isAppendURL := func(in ssa.Instruction) bool {
 			c, ok := in.(*ssa.Call)
